@@ -11,7 +11,8 @@ TEXT = ('StaticSound::process and StreamingSound::process are compared phase by 
         '(time_in_chunk, four interpolated reads, interpolation read before the position accumulates sample_rate·rate·dt, '
         'while >= 1.0 { -= 1.0; step }); the same output expression. Whitelisted, documented differences: abs() vs max(0.0), '
         'resampler vs ring buffer, streaming\'s error/starvation/end gates. read_commands and on_start_processing siblings '
-        'agree on order. Equality of produced frames is not decided.')
+        'agree on order. Equality of produced frames is not decided.'
+        ' The transport is moved only by the seek methods, which are entered only from command reading (who-may-call).')
 TECHNIQUE = 'MIR sibling-agreement (feature extraction + comparison) rules'
 
 ST = 'sound::static_sound::sound::StaticSound'
@@ -167,6 +168,7 @@ def run(ctx, R, tier):
             'output expressions differ: %s vs %s' % (oa, ob), detail={'shape': shape(oa[0]) if oa else None})
 
     frame_source(F, R)
+    seek_callers(F, R)
     # read_commands siblings
     def reader_fn(owner):
         ob_ = F.body('<%s as sound::Sound>::on_start_processing' % owner)
@@ -218,6 +220,35 @@ def shape(d):
     m = re.match(r'frame::Frame::panned\(<frame::Frame as std::ops::Mul<f32>>::mul\(<frame::Frame as std::ops::Mul<f32>>::mul\((.*)\)$', d)
     ops = re.findall(r'frame::Frame::panned|Mul<f32>>::mul|as_amplitude|interpolated_fade_volume|interpolated_value', d)
     return ops
+
+
+def seek_callers(F, R):
+    """The playback position (Transport) jumps only on behalf of a seek command.  In both sound kinds `Transport::seek_to` is
+    reached only through the seek methods (`seek_to`, `seek_by`, `seek_to_index`), and those are entered only from the
+    command-reading function and from each other -- never from the frame lookup / decoding path, where an index is an
+    absolute frame of the (sliced) file and not a playback position."""
+    from ..rt import strip_closures
+    SEEKS = ('seek_to', 'seek_by', 'seek_to_index')
+    n = 0
+    for b in F.bodies:
+        if b.krate != 'kira':
+            continue
+        owner = strip_closures(b.path)
+        oname = owner.split('::')[-1]
+        for bb, t in b.calls():
+            cp = callee_path(t) or ''
+            if cp == 'sound::transport::Transport::seek_to':
+                n += 1
+                R.check(oname in SEEKS and ('StaticSound' in owner or 'DecodeScheduler' in owner), 'B.C09.seek', 'transport<-%s' % owner,
+                        '%s moves the transport: only the seek methods of a sound may (a position is not a file index)' % owner,
+                        detail={'caller': owner}, where=b.where(bb))
+            elif cp.split('::')[-1] in SEEKS and ('StaticSound::' in cp or 'DecodeScheduler::' in cp):
+                n += 1
+                ok = oname in SEEKS or oname in ('read_commands', 'run', 'on_start_processing')
+                R.check(ok, 'B.C09.seek', '%s<-%s' % (cp.split('::')[-1], owner),
+                        '%s calls %s: a seek is performed only for a seek command (from the command-reading function or another seek method)'
+                        % (owner, cp), detail={'caller': owner, 'callee': cp}, where=b.where(bb))
+    R.floor('B.C09.seek', n, 6)
 
 
 def frame_source(F, R):
